@@ -39,10 +39,22 @@ def train_scenario(ctx, i):
     m0 = m + r.normal(size=m.shape) * np.sqrt(v) * 0.7
     v0 = v * np.exp(r.uniform(-0.7, 0.7, size=v.shape))
     um, uv, uw = SWITCHES[i % 8]
-    return dict(C=C, D=D, w=w0, m=m0, v=v0, x=x, x_dtype=str(np.asarray(x).dtype), um=um, uv=uv, uw=uw, thr=gen.EPS, floor=gen.EPS)
+    return dict(C=C, D=D, w=w0, m=m0, v=v0, x=x, x_dtype=str(np.asarray(x).dtype), um=um, uv=uv, uw=uw, thr=gen.EPS, floor=gen.EPS, was_map=bool(r.random() < 0.15))
 
 
 def mk(sc, **kw):
+    if sc.get("was_map"):
+        # the object was created as a MAP machine (around some prior) and re-configured for ML training afterwards, parameter by
+        # parameter: `trainer` is a public parameter, what counts is its value when fit is called
+        from bob.learn.em import GMMMachine
+
+        prior = gen.mk_gmm(np.asarray(sc["w"])[::-1].copy(), np.asarray(sc["m"]) + 1.0, np.asarray(sc["v"]) * 2.0)
+        g = GMMMachine(len(sc["w"]), trainer="map", ubm=prior, update_means=sc["um"], update_variances=sc["uv"], update_weights=sc["uw"],
+                       mean_var_update_threshold=sc["thr"], **kw)
+        g.set_params(trainer="ml")
+        g.variance_thresholds = sc.get("floor", gen.EPS)
+        g.weights, g.means, g.variances = (np.array(sc[k], dtype=float) for k in ("w", "m", "v"))
+        return g
     g = gen.mk_gmm(sc["w"], sc["m"], sc["v"], thr=sc.get("floor", gen.EPS), update_means=sc["um"], update_variances=sc["uv"],
                    update_weights=sc["uw"], mean_var_update_threshold=sc["thr"], **kw)
     return g
@@ -354,7 +366,7 @@ def search(ctx):
         ctx.case(["mono", core.tolist(sc["x"]), i % 8, sc["chunks"]], nontrivial=True)
         f = oracle_monotone(sc)
         if f:
-            f["input"] = {k: sc[k] for k in ("w", "m", "v", "x", "x_dtype", "um", "uv", "uw", "thr", "floor", "chunks") if k in sc}
+            f["input"] = {k: sc[k] for k in ("w", "m", "v", "x", "x_dtype", "um", "uv", "uw", "thr", "floor", "chunks", "was_map") if k in sc}
             f["oracle"] = "monotone"
             fails.append(f)
             break
@@ -377,7 +389,7 @@ def search(ctx):
                 ctx.count("search:stop")
                 ctx.case(["stop", core.tolist(sc["x"]), cap, thr, use_dask], nontrivial=True)
                 if f:
-                    f["input"] = {**{k: sc[k] for k in ("w", "m", "v", "x", "x_dtype", "um", "uv", "uw", "thr", "floor") if k in sc}, "cap": cap, "conv_thr": thr, "dask": use_dask, "sizes": sizes}
+                    f["input"] = {**{k: sc[k] for k in ("w", "m", "v", "x", "x_dtype", "um", "uv", "uw", "thr", "floor", "was_map") if k in sc}, "cap": cap, "conv_thr": thr, "dask": use_dask, "sizes": sizes}
                     f["oracle"] = "stop"
                     fails.append(f)
                     break
